@@ -32,6 +32,8 @@ var verifC06Strings = []string{
 	"1", " 1 ", "0", "-2", "9223372036854775807", "1.5", " 1.50", "1e2", "-0", "NaN", "Inf", "-Inf",
 	"true", "false", "t", "f", "abc", " ABC ", "abd", "", "  ",
 	"2012-02-03 09:18:15", "2012-02-03T09:18:15Z", "2012-02-04",
+	// less common spellings of numbers: no leading or trailing digit, explicit sign, hexadecimal, long infinity
+	".5", "-.5", "5.", "+3", "0x1p-2", "Infinity",
 }
 
 func verifC06Operand(tag string) *verifC06Op {
